@@ -226,7 +226,10 @@ def run(ctx, rec):
             layout = L.LAYOUTS[(n // len(KINDS)) % len(L.LAYOUTS)]
             method = METHODS[(n + ctx.shard) % len(METHODS)]
             n += 1
-            lp = L.draw_lp(rng, layout=layout, kind=kind, risky=(n % 5 != 0), deep_objective=(n % 25 == 3))
+            if n % 25 == 14:
+                lp = L.draw_lp(rng, layout=layout, kind="optimal", deep_objective=True, max_rows=0)  # deep objective, bounds only
+            else:
+                lp = L.draw_lp(rng, layout=layout, kind=kind, risky=(n % 5 != 0), deep_objective=(n % 25 == 3))
             if "deep-objective" in lp["layout"]:
                 rec.cmp(1, "objective:deep-accumulation")
             run_model(lp, method, rec, rng, seams, other)
